@@ -103,9 +103,8 @@ def run_case(case, ctx):
 					args += paths
 				else:
 					lf = os.path.join(pd, 'list.txt')
-					with open(lf, 'w', encoding='utf-8') as f:
-						f.write('\n'.join(rel) + '\n')
-					args += ['-l', lf, '--ldir', os.path.join(pd, 'base')]
+					H.write_listfile(lf, rel, plan.get('list_style', 0))
+					args += ['-l', lf, '--ldir', os.path.join(pd, 'base') + ('/' if plan.get('list_style', 0) % 2 else '')]
 				if any(gzs):
 					classes.add('gzip_input')
 			if plan['cores'] is not None:
@@ -190,6 +189,7 @@ def gen_case(draw, tier):
 			'fmt': draw(st.sampled_from(['csv', 'json', 'archive', 'csv'])),
 			'int_ids': draw(st.booleans()),
 			'gz_members': draw(st.sampled_from([1, 2, 3])),
+			'list_style': draw(st.integers(0, 4)),
 			'db_via_env': draw(st.sampled_from([False, False, True])),
 			'chunksize': draw(st.sampled_from([1000, None, 1, 2, 'n+1'])),
 		})
